@@ -17,6 +17,11 @@ TRUSTED_BASE = [
 ]
 ASSUMPTIONS = ['equality of the ids INSIDE the provision and locality of the grammar are decided by the oracle, not yet theorems']
 
+class NumSet(set):
+    """the (element, cleaned num) pairs taken among one group of siblings, and the raw nums behind them"""
+    def __init__(self):
+        super().__init__(); self.raw = []
+
 class Prov:
     def __init__(self, kw, num, heading, ind):
         self.kw, self.num, self.heading, self.ind = kw, num, heading, ind
@@ -30,16 +35,27 @@ def gen_provisions(rng, W, ind, depth, out, provs, used_nums):
         if key not in used_nums: break
     used_nums.add(key)
     p = Prov(kw, num, None, ind)
+    p.unique = True
+    # now and then a provision that is NOT uniquely numbered - no num at all, or the num of an earlier sibling of the same kind: it is not
+    # compared itself, but it is the parent whose eId (part_nn_1, sec_4_2) the provisions inside it get as prefix
+    r0 = rng.random()
+    if r0 < 0.10:
+        p.num = num = None; p.unique = False; used_nums.discard(key)
+    elif r0 < 0.18:
+        prev = [k for k in used_nums.raw if k[0] == SYN.get(kw.lower(), kw.lower())]
+        if prev:
+            used_nums.discard(key); num = prev[-1][1]; p.num = num; p.unique = False
+    if p.unique: used_nums.raw.append((SYN.get(kw.lower(), kw.lower()), num))
     p.start = len(out)
     # now and then an explicit eId in the source (the generator replaces it by the one derived from the number), and elsewhere
     # internal references to such ids: what they point at lies outside the provision that holds them
-    line = '  ' * ind + kw + (rng.choice(['{eId commencement}', '{eId sec_99}', '{eId x}']) if rng.random() < 0.12 else '') + ' ' + num
+    line = '  ' * ind + kw + (rng.choice(['{eId commencement}', '{eId sec_99}', '{eId x}']) if rng.random() < 0.12 else '') + ((' ' + num) if num is not None else '')
     if rng.random() < 0.5: line += ' - ' + W.words(1, 3)
     out.append(line)
     if rng.random() < 0.2: out.append('  ' * (ind + 1) + 'SUBHEADING ' + W.words(1, 2))
     provs.append(p)
     n = rng.randint(0, 3)
-    sub_used = set()
+    sub_used = NumSet()
     for _ in range(n):
         r = rng.random()
         if r < 0.45 and depth < 4:
@@ -91,7 +107,7 @@ def gen_case(rng):
         for _ in range(rng.randint(0, 2)):
             for l in rng.choice(BLOCK_POOL).split('\n'): out.append('  ' + l)
     if rng.random() < 0.5: out.append('BODY')
-    used = set()
+    used = NumSet()
     for _ in range(rng.randint(1, 3)):
         gen_provisions(rng, W, 0, 0, out, provs, used)
     return out, provs
@@ -131,6 +147,7 @@ def _oracle(args):
         return ('skip', 'provision count mismatch', 0)
     checked = 0
     for pr, el in zip(provs, els):
+        if not getattr(pr, 'unique', True): continue
         frag_lines = lines[pr.start:pr.end]
         frag = '\n'.join(l[steps[pr.ind]:] for l in frag_lines) + '\n'
         # prefix handed down: nearest identified ancestor's eId
